@@ -150,6 +150,7 @@ class PathState(object):
         self.raw_ok = raw_ok
         self.decided = {}
         self.memo = {}
+        self.shadow = {}            # id(real dict) -> (real dict, path-local SymDict) for dicts written by interpreted code
         self.keys = list(keys)      # signed proxy keys: k+1 for b_k, -(k+1) for not b_k
         self.litset = set(self.keys)
         self.lits = []              # the same literals as z3 ast handles (assumptions)
